@@ -310,7 +310,9 @@ def prove_upload_file(src_root, ex: Explorer):
                     disconnect=Recorder('disconnect', fn=lambda it2, a, k: order.append(('disconnect',)), is_async=True),
                     receive_until_eof=Recorder('receive_until_eof', fn=lambda it2, a, k: order.append(('eof', k.get('raise_exception'))), is_async=True),
                     set_connection_state=Recorder('set_connection_state'))
-        net = Stub('network', send_peer_messages=Recorder('send_peer_messages', fn=lambda it2, a, k: peer_msgs.append(a), is_async=True))
+        ended_when_told = []
+        net = Stub('network', send_peer_messages=Recorder('send_peer_messages', is_async=True,
+                                                          fn=lambda it2, a, k: (peer_msgs.append(a), ended_when_told.append([c[0] for c in calls if c[0] != 'start_transferring']))))
         mgr = new(it, MGR, 'TransferManager', _network=net)
         try:
             run(it, it.getattr(mgr, '_upload_file'), t, conn)
@@ -333,6 +335,10 @@ def prove_upload_file(src_root, ex: Explorer):
             ok = ends == ['fail'] and raised is None and len(peer_msgs) == 1 and peer_msgs[0][0] == 'bob' \
                 and peer_msgs[0][1].cls.qual == 'PeerUploadFailed.Request' and peer_msgs[0][1].attrs['filename'] == 'remote'
             ctx.prove(name, ok, f'{ends} {peer_msgs}')
+            # the downloader answers PeerUploadFailed with a new queue request: it must find the upload FAILED (re-queued), not still
+            # UPLOADING (ignored: the download is never queued again)
+            ctx.prove('C04._upload_file.failed-before-the-peer-is-told', ended_when_told == [['fail']],
+                      f'state operations issued before PeerUploadFailed was sent: {ended_when_told}')
         elif oc == 'OSError':
             ctx.prove(name, ends == ['fail'] and ('disconnect',) in order and raised is None)
         elif oc == 'CancelledError':
@@ -358,7 +364,12 @@ def prove_offset(src_root, ex: Explorer):
                 return Sym(size, 'int')
             return A.SimpleAwaitable(it2.aio, 'getsize', body)
         it.natives['aiofiles.os.path.getsize'] = Native('getsize', getsize)
-        t = new(it, MODEL, 'Transfer', local_path=None if oc == 'no-path' else '/dl/file')
+        # the announced size may be anything relative to the local file (smaller too: the local file is then NOT a prefix of the remote
+        # one and the size guard of _download_file must see the true offset - the transfer may not go COMPLETE)
+        announced = ctx.fresh_int('announced')
+        ctx.assume(announced >= 0)
+        t = new(it, MODEL, 'Transfer', local_path=None if oc == 'no-path' else '/dl/file',
+                filesize=[None, Sym(announced, 'int')][ctx.choose(2, 'filesize-known')], bytes_transfered=0)
         mgr = new(it, MGR, 'TransferManager')
         r = run(it, it.getattr(mgr, '_calculate_offset'), t)
         if oc == 'size':
@@ -366,6 +377,28 @@ def prove_offset(src_root, ex: Explorer):
         else:
             ctx.prove(f'C04._calculate_offset[{oc}]', unbox(r) == 0)
     ex.run(calc, 'calculate_offset')
+
+    def recv_offset(ctx: Ctx):
+        """PeerConnection.receive_transfer_offset (uploader side): the 8 bytes of the offset are read with readexactly - TCP may deliver them in
+        two segments, a plain read(8) returns the first one and the upload dies on a short buffer"""
+        it = mk(src_root, ctx)
+        c = mk_conn(it, ctx)
+        reads = []
+        off = ctx.fresh_int('offset')
+        ctx.assume(z3.And(off >= 0, off < (1 << 64)))
+        from pyvc.rope import Rope, LE
+        data = Rope([LE(8, off)])
+        c.attrs['_reader'] = Stub('reader', readexactly=Recorder('readexactly', fn=lambda it2, a, k: (reads.append(('readexactly', a[0])), data)[1], is_async=True),
+                                  read=Recorder('read', fn=lambda it2, a, k: (reads.append(('read', a[0])), data)[1], is_async=True))
+        it.hooks[f'{CONN}:DataConnection._read'] = lambda it2, f, a, k: A.SimpleAwaitable(it2.aio, '_read', lambda it3: it3.await_value(a[1]))
+        try:
+            r = run(it, it.getattr(c, 'receive_transfer_offset'))
+        except PyRaise as pr:
+            ctx.fail('C04.receive_transfer_offset.exactly-8-bytes', repr(pr.exc))
+            return
+        ctx.prove('C04.receive_transfer_offset.exactly-8-bytes', reads == [('readexactly', 8)] and ctx.valid(z3int(r) == off),
+                  f'the offset was read with {reads}')
+    ex.run(recv_offset, 'receive_transfer_offset')
 
     def send(ctx: Ctx):
         """tail of _initialize_download after the file connection arrived: offset recorded and sent as le(8, offset)"""
